@@ -253,9 +253,10 @@ def random_attr_abbreviations(rng, n):
 TAG_NAMES = ['a', 'div', 'x-y', 'ns:el', 'h1', 'input']
 TAG_VALUES = ['x', '', 'a b', "it's", "go('next')", 'say "hi"', "a'b'c", 'a>b', 'a<b', 'a=b', 'f(1)', '[x]', '{y}', 'a/b',
               'x y="z"', "k='v' w", 'a, b; c', '#', '.', '"', "'", ' "', "' ", "don't >", '<b title="q">', "a='b'", '="', "'="]
-TAG_PRE = ['', 'disabled ', 'href=y ', 'id="k" ', "data-a='1' b ", 'href=/x/y ']
+TAG_PRE = ['', 'disabled ', 'href=y ', 'id="k" ', "data-a='1' b ", 'href=/x/y ', 'href=/home ']
 TAG_POST = ['', ' disabled', ' href=y', ' colspan=2 checked', ' id="k"', " data-a='1'", ' /', '/', ' required /',
-            '  disabled', '\tdisabled', ' ', ' b c', ' href=/x/y', ' src=../i.png', ' b=c/d /']
+            '  disabled', '\tdisabled', ' ', ' b c', ' href=/x/y', ' src=../i.png', ' b=c/d /',
+            ' href=/home', ' href=/app/ /', ' action=/ method=post', ' href=/a']
 TAG_ABBRS = ['foo', 'ul>li.item$*3', 'a[href=#]{x}', '.b+.c', '#id', 'p{t}', '(a+b)*2', 'x-y>b']
 TAG_CSS_ABBRS = ['m10', 'p10-20', 'c#f', 'bd1-s']
 _RANDOM_TAG_CHARS = 'ab c\'"()[]{}<>=/.,#-  '
@@ -286,7 +287,7 @@ def random_html_tag(rng):
         if k < 0.2:
             return name
         if k < 0.35:
-            return name + '=' + rng.choice(['y', '2', 'x-1', 'k:v', '/x/y', 'a/b', '../i.png'])
+            return name + '=' + rng.choice(['y', '2', 'x-1', 'k:v', '/x/y', 'a/b', '../i.png', '/home', '/a/b.c'])
         q = rng.choice('"\'')
         v = ''.join(rng.choice(_RANDOM_TAG_CHARS) for _ in range(rng.randint(0, 6))).replace(q, '')
         return name + '=' + q + v + q
